@@ -208,6 +208,7 @@ class World:
                      'dtime': {}, 'droot': {}, 'froot': {}, 'foreign': [], 'moves': [], 'qlen_after': [], 'nreg': 0,
                      'tmpl_of': {}, 'zsend': [], 'running_at': {}, 'missed': []}
         self.last_parent = {}
+        self.spec_installed = set()     # (hid, name token | None) the operations say are installed
         self.decl, self.builtin, self.timer_h = assign_ids(sc)
 
     # ---- logging helpers --------------------------------------------------------------
@@ -297,6 +298,7 @@ class World:
         elif k == 'addH':
             hid = a[1]
             self.bound[hid] = self.comps[self.owner_of(hid)].addHandler(self.funcs[hid])
+            self.spec_add(hid)
         elif k == 'rmH':
             hid = a[1]
             m = self.bound.get(hid)
@@ -305,8 +307,10 @@ class World:
             owner = self.comps[self.owner_of(hid)]
             if a[2] is None:
                 owner.removeHandler(m)
+                self.spec_installed = {x for x in self.spec_installed if x[0] != hid}
             else:
                 owner.removeHandler(m, py_name(a[2]))
+                self.spec_installed.discard((hid, a[2]))
         elif k == 'reg':
             self.side['nreg'] += 1
             self.comps[a[1]].register(self.comps[a[2]])
@@ -333,6 +337,16 @@ class World:
         else:
             raise ValueError(a)
         return None
+
+    def spec_add(self, hid):
+        for ci, ids in enumerate(self.decl):
+            if hid in ids:
+                h = self.sc['comps'][ci]['handlers'][ids.index(hid)]
+                if h['names']:
+                    for n in h['names']:
+                        self.spec_installed.add((hid, n))
+                else:
+                    self.spec_installed.add((hid, None))
 
     def owner_of(self, hid):
         for ci, ids in enumerate(self.decl):
@@ -451,6 +465,7 @@ class World:
             for h, hid in zip(c.get('handlers', []), self.decl[ci]):
                 if h.get('installed', True):
                     self.bound[hid] = getattr(self.comps[ci], f'h{hid}')
+                    self.spec_add(hid)
         import threading as _t
         for c in self.sc.get('setexec', []):
             self.comps[c]._executing_thread = _t.current_thread()
@@ -527,7 +542,8 @@ class World:
 
         def _dispatcher(self, event, channels, remaining):
             if not event.cancelled:
-                world.side['expect'].append((len(world.log), event._vid, world.expected_handlers(self, event, channels)))
+                world.side['expect'].append((len(world.log), event._vid, world.expected_handlers(self, event, channels),
+                                             frozenset(world.spec_installed), name_token(event.name)))
             world.side['dtime'][len(world.log)] = world.clock
             world.side['droot'][len(world.log)] = world.comps.index(self) if self in world.comps else None
             world.side['running_at'][len(world.log)] = bool(self._running)
@@ -751,7 +767,8 @@ class World:
         self.ops = []
         with self.instrumented():
             self.build()
-            pending = list(self.sc['ops'])
+            # always settle at the end: tick every root while it has queued events or tasks
+            pending = list(self.sc['ops']) + [['quiesce', i] for i in range(len(self.sc['comps']))]
             budget = 400
             while pending and budget > 0:
                 raw = pending.pop(0)
